@@ -682,6 +682,15 @@ def query_file_cases():
     return rewrap(PROP, c11.dump_cases(), "answer-is-for-this-path")
 
 
+def core_ref():
+    """`every potential-violation query was answered unsat`: with --cache-solver an answer may come from a recorded core, which must be the
+    solver's whole core, however the solver lays it out over lines (C16's unit)"""
+    from contracts import c16
+    from contracts.common import rewrap
+
+    return rewrap(PROP, c16.parse_core_cases(), "whole-core")
+
+
 def setup_selection_ref():
     """the choice of the post-setUp state does not depend on solver timing: a timed-out query keeps its path (C10's unit)"""
     from contracts import c10
@@ -691,7 +700,7 @@ def setup_selection_ref():
 
 
 def build_cases(tier="quick"):
-    return setup_selection_ref() + query_file_cases() + verdict_cases() + from_result_cases() + timeout_cases() + classification_cases() + callback_cases() + exit_code_cases() + join_cases() + context_cases()
+    return core_ref() + setup_selection_ref() + query_file_cases() + verdict_cases() + from_result_cases() + timeout_cases() + classification_cases() + callback_cases() + exit_code_cases() + join_cases() + context_cases()
 
 
 def grounds():
